@@ -7,15 +7,39 @@ pub fn read_message<R: Read>(r: &mut R) -> Result<Message, RepeError> {
     let mut hdr_buf = [0u8; HEADER_SIZE];
     read_exact(r, &mut hdr_buf)?;
     let header = Header::decode(&hdr_buf)?;
-    let mut query = vec![0u8; header.query_length as usize];
+    let mut query = zeroed_payload(header.query_length)?;
     if !query.is_empty() {
         read_exact(r, &mut query)?;
     }
-    let mut body = vec![0u8; header.body_length as usize];
+    let mut body = zeroed_payload(header.body_length)?;
     if !body.is_empty() {
         read_exact(r, &mut body)?;
     }
     Message::new(header, query, body)
+}
+
+/// Allocate a zero-filled payload buffer for a length declared on the wire.
+///
+/// The length is untrusted: a 48-byte header can declare up to `u64::MAX`
+/// bytes. An infallible `vec![0; n]` would panic ("capacity overflow") or abort
+/// the process (allocation failure) on such a frame, so reserve fallibly and
+/// report an unsatisfiable size as an I/O error instead.
+pub(crate) fn zeroed_payload(len: u64) -> Result<Vec<u8>, RepeError> {
+    let mut buf = Vec::new();
+    grow_zeroed(&mut buf, len)?;
+    Ok(buf)
+}
+
+/// Grow `buf` with zeros to `new_len` bytes (a wire-declared, untrusted size),
+/// failing with an I/O error rather than panicking or aborting when the size
+/// cannot be allocated.
+pub(crate) fn grow_zeroed(buf: &mut Vec<u8>, new_len: u64) -> Result<(), RepeError> {
+    let oom = || RepeError::Io(std::io::Error::from(std::io::ErrorKind::OutOfMemory));
+    let new_len = usize::try_from(new_len).map_err(|_| oom())?;
+    buf.try_reserve_exact(new_len.saturating_sub(buf.len()))
+        .map_err(|_| oom())?;
+    buf.resize(new_len, 0);
+    Ok(())
 }
 
 /// Read a full REPE message frame into `buf`, reusing its allocation across
@@ -34,8 +58,9 @@ pub fn read_message_into<R: Read>(r: &mut R, buf: &mut Vec<u8>) -> Result<(), Re
     buf.resize(HEADER_SIZE, 0);
     read_exact(r, &mut buf[..HEADER_SIZE])?;
     let header = Header::decode(&buf[..HEADER_SIZE])?;
-    let total = HEADER_SIZE + header.query_length as usize + header.body_length as usize;
-    buf.resize(total, 0);
+    // `Header::decode` guarantees `length == HEADER_SIZE + query + body`.
+    grow_zeroed(buf, header.length)?;
+    let total = buf.len();
     read_exact(r, &mut buf[HEADER_SIZE..total])?;
     Ok(())
 }
